@@ -29,6 +29,8 @@ def join(a, b):
 
 
 class Flow(object):
+    POSITIONAL_PRESERVING = ('broadcast_arrays', 'atleast_1d', 'atleast_2d')
+
     def __init__(self, classify, on_stmt=None, refine=None, on_store=None):
         self.classify = classify
         self.on_stmt = on_stmt or (lambda st, state: None)
@@ -66,6 +68,21 @@ class Flow(object):
     def stmt(self, st, state):
         if isinstance(st, ast.Assign):
             self.on_stmt(st, state)
+            # element-wise unpacking: a, b = x, y   /   a, b = np.broadcast_arrays(x, y)
+            if len(st.targets) == 1 and isinstance(st.targets[0], (ast.Tuple, ast.List)):
+                elems = None
+                v = st.value
+                if isinstance(v, (ast.Tuple, ast.List)) and len(v.elts) == len(st.targets[0].elts):
+                    elems = v.elts
+                elif isinstance(v, ast.Call) and isinstance(v.func, ast.Attribute) and v.func.attr in self.POSITIONAL_PRESERVING \
+                        and len(v.args) == len(st.targets[0].elts) and not any(isinstance(a, ast.Starred) for a in v.args):
+                    elems = v.args
+                if elems is not None:
+                    vals = [frozenset(self.classify(e, state)) for e in elems]
+                    state = dict(state)
+                    for t, tg in zip(st.targets[0].elts, vals):
+                        self.bind(t, tg, state, st)
+                    return state
             tags = frozenset(self.classify(st.value, state))
             state = dict(state)
             for t in st.targets:
